@@ -147,7 +147,10 @@ var c04AbsNames = map[string]bool{"Node": true, "U": true, "Solo": true}
 var c04IsTypeNames = map[string]bool{"A": true, "B": true, "C": true}
 
 func c04Analyse(q string) *c04Info {
-	if ci, ok := c04Cache[q]; ok {
+	// (a generated document can recur with other variable values: the
+	// fault-free run depends on both)
+	cacheKey := q + "\x00" + jsonOf(c04Vars[q])
+	if ci, ok := c04Cache[cacheKey]; ok {
 		return ci
 	}
 	verifmo.Set(verifmo.Sorted, 0)
@@ -206,7 +209,7 @@ func c04Analyse(q string) *c04Info {
 		}
 		ci.Kinds[p] = kinds
 	}
-	c04Cache[q] = ci
+	c04Cache[cacheKey] = ci
 	return ci
 }
 
